@@ -1,6 +1,6 @@
 """C07 Every program terminates within a fixed instruction budget."""
 import astq
-from rules import decode, jit, jitcross, rv64, x86hsem
+from rules import a64hsem, decode, jit, jitcross, rv64, x86hsem
 
 LEVEL = 'other'
 TECHNIQUE = 'known-bits abstract interpretation of the branch constant for all 16 shifts + decoder path enumeration (write sets vs last-writer marks) + sibling agreement of the JIT back-ends'
@@ -11,12 +11,14 @@ CLAIM = ('Decides statically the three structural facts the termination argument
          ' For A64 additionally: last-writer marks are recorded only after the last instruction word of a handler (LW-POS); for RV64: each of the three branch forms is used only within its encodable distance and scatters the distance bits as the ISA requires (RV-BRANCH-RANGE, RV-BRANCH-ENC).'
          ' The RV64 vector generator is included in the last-writer comparison; the far branch form of the scalar RV64 back-end is decoded (it must branch over the jal exactly when the masked value is non-zero).'
          ' The value every back-end stores in its last-writer table is the instruction being translated (its index, or the code position after it), never an older mark (LW-VALUE x4).'
-         ' x86 CBRANCH bytes: `add dst, imm` with the immediate of 5.4.3, `test dst, 0xFF << (mod.cond + 8)`, and a `jz` whose displacement lands exactly on the code offset of the instruction after the last writer of the register (X86-CBR-HSEM, decoded bytes, 1064 cases).')
+         ' x86 CBRANCH bytes: `add dst, imm` with the immediate of 5.4.3, `test dst, 0xFF << (mod.cond + 8)`, and a `jz` whose displacement lands exactly on the code offset of the instruction after the last writer of the register (X86-CBR-HSEM, decoded bytes, 1064 cases).'
+         ' A64 CBRANCH words: the add sequence leaves dst + the immediate of 5.4.3, `tst` uses the decoded mask 0xFF << (mod.cond + 8) on the same register, and `b.eq` lands exactly on the offset recorded in reg_changed_offset for the register (A64-CBR-HSEM, 1848 cases).')
 LEVEL_NOTE = ('Trusted: the arithmetic lemma (proved in DESIGN.md, independent of the code); clang AST; for the JITs the write sets of emitted native code are taken to be those of the '
               'interpreter (sibling agreement of marks only).')
 EXPLANATION = ('CBR-BITS (16 shifts x engines), CBR-TARGET, LW-SOUND and LW-SPEC over the 46 decoder paths, LW-SIB between engines. CBR-BITS/TARGET for A64 and RV64, LW-POS, RV-BRANCH-RANGE, RV-BRANCH-ENC.'
          ' LW-VALUE x4.'
-         ' X86-CBR-HSEM.')
+         ' X86-CBR-HSEM.'
+         ' A64-CBR-HSEM.')
 
 
 def run(ctx, R):
@@ -37,3 +39,4 @@ def run(ctx, R):
     for arch_ in ('x86', 'a64', 'rv64', 'rvv'):
         jit.rule_lw_value(ctx, R, arch_)
     x86hsem.rule_cbranch(ctx, R)
+    a64hsem.rule_cbranch(ctx, R)
